@@ -59,6 +59,40 @@ CHECKS["C08"] = (
     "DESIGN.md 3 (C08)",
 )
 
+CHECKS["C02"] = (
+    "Coq proof (Reals + lists) about a hand-written executable model; acceptance decisions by certified interval arithmetic (reflection onto Coq-Interval); exact vm_compute correspondence",
+    "Model/Reject.v models the rejection step: IEEE special values, the rule exp(ll_i - max) > u_i, evaluation order, truncation, the three index "
+    "spaces, the rows returned. Theorems (all libraries, draws, options): the decision oracle dec_exp is sound for the real-number rule; a "
+    "position is kept iff the rule holds; kept positions are strictly increasing; a sample at the finite maximum always survives; -inf/NaN next "
+    "to a finite maximum never survives; max_posterior_samples keeps a prefix; every returned row is an evaluated library row, n_linear "
+    "consecutive copies. Each run Coq replays what the implementation did (recorded uniform/choice draws, likelihoods, returned rows) through "
+    "rs_check for stub-injected profiles (flat, spike, ties, -inf) and the real kernel, on the in-memory, cache-file and file-name paths.",
+    "Trusted: Coq kernel + vm_compute; Coq-Interval (verified) and BigZ primitive ints; stdlib real axioms + classic + funext (Print Assumptions); "
+    "numpy exp/subtraction within 1e-9 relative (closer decisions are skipped and counted); the recording Generator sees every draw; pool.map "
+    "preserves order. Survival PROBABILITY L_i/L_max follows from the rule given uniform draws (numpy's generator trusted).",
+    "DESIGN.md 3 (C02)",
+)
+CHECKS["C06"] = (
+    "Coq proof (lists, nat division) about the same executable model as C02/C14; exact vm_compute correspondence on rows and columns",
+    "Theorems: one ln_prior / ln_likelihood value per returned row; row j is a copy of library row full[j/n]; its ln_likelihood is the value at the "
+    "evaluation position of that sample, which was computed for exactly that library row; its ln_prior is the library value of that row; with a "
+    "shuffled order full = order o good. rs_check / it_check compare rows and both columns with the implementation (library ln_prior injective "
+    "in the row number, stub likelihood known per row) for rejection_sample and iterative_rejection_sample on all paths and option combinations.",
+    "Trusted: as C02.",
+    "DESIGN.md 3 (C06)",
+)
+CHECKS["C14"] = (
+    "Coq proof (induction over loop fuel) about a hand-written executable model with batch sizes as inputs; exact vm_compute correspondence replaying recorded iterations",
+    "Model/Iterative.v: the grow-and-retest loop with arbitrary batch sizes, budget clamp, stop conditions, non-finite guard, failure modes. "
+    "Theorems (any sizes, any draws): a normal return evaluated <= budget rows, returns <= n_requested samples, exactly n_requested when enough "
+    "passed, fewer only when the budget is exhausted, every one accepted by the C02 rule against all likelihoods evaluated so far with the last "
+    "draws; too-small library raises; fuel exhaustion raises; evaluated rows are a prefix of a duplicate-free order; a returned non-JokerSamples "
+    "never matches the model. Each run Coq replays the recorded iterations (it_check).",
+    "Trusted: as C02; the growth formula itself (a float truncation) is deliberately not modelled -- sizes are read off the recorded uniform() "
+    "calls; maxiter=128 is not reachable in practice and is covered by the theorem only.",
+    "DESIGN.md 3 (C14)",
+)
+
 NOT_YET = {}
 
 
